@@ -59,6 +59,38 @@ pub fn run(a: &Args) {
         }
         let _ = nix::sys::ptrace::detach(pid, None);
     }
+    // a target started without address-space randomisation: its [stack] ends at the very top of user space (0x7ffffffff000);
+    // ranges ending exactly there are ordinary readable ranges (judged against an independent pread of /proc/<pid>/mem)
+    {
+        NO_ASLR_TARGET.store(true, std::sync::atomic::Ordering::SeqCst);
+        let spawned = Target::spawn(&Scenario { threads: vec![], lines: vec![] }, &work);
+        NO_ASLR_TARGET.store(false, std::sync::atomic::Ordering::SeqCst);
+        if let Ok(target) = spawned {
+            let pid = nix::unistd::Pid::from_raw(target.pid);
+            if nix::sys::ptrace::attach(pid).is_ok() {
+                let _ = nix::sys::wait::waitpid(pid, Some(nix::sys::wait::WaitPidFlag::__WALL));
+                let maps = std::fs::read_to_string(format!("/proc/{}/maps", target.pid)).unwrap_or_default();
+                let stack_end = maps.lines().find(|l| l.ends_with("[stack]")).and_then(|l| l.split_whitespace().next()).and_then(|r| r.split_once('-')).and_then(|(_, e)| u64::from_str_radix(e, 16).ok());
+                if let Some(end) = stack_end {
+                    out.count(if end == 0x7fff_ffff_f000 { "stack_top.at_the_top_of_user_space" } else { "stack_top.elsewhere" });
+                    for len in [1u64, 2, 7, 8, 9, 16, 63, 64, 100, 4095, 4096, 4097] {
+                        let src = end - len;
+                        let Some(want) = read_mem(target.pid, src, len as usize).filter(|b| b.len() as u64 == len) else { continue };
+                        for (st, name) in [(0u64, "vmem"), (1, "file"), (2, "ptrace")] {
+                            let mut rd = match st { 0 => MemReader::for_virtual_mem(target.pid), 1 => match MemReader::for_file(target.pid) { Ok(r) => r, Err(_) => continue }, _ => MemReader::for_ptrace(target.pid) };
+                            let r = quiet_catch(std::panic::AssertUnwindSafe(|| rd.read_to_vec(src as usize, std::num::NonZeroUsize::new(len as usize).unwrap())));
+                            let mut l = Line::new("const"); l.u(0).bytes(&want);
+                            let mut res = Line::bare();
+                            match &r { Ok(Ok(b)) => { res.u(0).bytes(b); } Ok(Err(_)) => { res.u(1); } Err(_) => { res.0 = "!panic".into(); } }
+                            out.count(&format!("stack_top.{name}"));
+                            out.case(l.s(), res.s(), true);
+                        }
+                    }
+                }
+                let _ = nix::sys::ptrace::detach(pid, None);
+            }
+        }
+    }
     out.assumptions.push("kernel semantics of the three primitives: process_vm_readv returns the readable prefix (error when nothing is readable), pread on /proc/<pid>/mem with read_exact is all-or-error, PTRACE_PEEKDATA reads one whole word or fails; page-granular protections".into());
     out.finish(&a.out, "MemReader::for_virtual_mem / for_file / for_ptrace on a ptrace-stopped target: ranges of 1..64 KiB at all alignments inside, ending exactly at, and running past the end of pattern-filled mappings followed by unmapped pages; non-trivial = range touches the mapping end or is unaligned in start or length");
 }
